@@ -747,7 +747,7 @@ def main():
         ],
         'evaluations': len(results) + extra_run,
         'distinct_nontrivial': len(nontriv),
-        'rule': 'E0-static (C03s): a third of the E0 cases are STATICALLY TYPED pipelines of the same term language with the same expected lines: static=1 = an instance of the pure catalogue (145 shapes: leaves; when_all of 1-3 / when_all_vector / split / ensure_started over leaves; each of then/let_value/let_error/continues_on/unpack/drop_value/require_started/drop_operation_state over a leaf, over just, over each storing predecessor and over each other; drop_operation_state over those; mixed storing shapes), one pika expression connected directly to the typed probe and terminal receiver, no erasure; static=2 = any term on the REF tier (sum types of senders to adaptor depth 3, receivers reached through a handle that forwards references, operation states nested in place; deeper sub-terms and st/bulk/when_all-of-4 are erased once = holes); leaves keep values / exception_ptr in their operation state and complete with references to them, let_value bodies read the predecessor values through the reference when started; error channel over-represented below drop_operation_state / let_error / continues_on; split optionally consumed once before the real consumer connects (spre=1); pool terms on the REF tier; all inline static cases again under ASan. E0: random pipeline terms (2-12 nodes over just/err/stop/arg/schedule/transfer_just/then/let_value/let_error/drop_value/unpack/continues_on/bulk(generic)/require_started/drop_operation_state/when_all/when_all_vector/split/ensure_started/split_tuple, all three channels at leaves and inline schedulers, throwing callables, consumers terminal receiver / start_detached / sync_wait); E0-pool: the same terms with schedule/continues_on/transfer_just on pika thread_pool_scheduler of a running 2-worker runtime (completion on worker threads, ensure_started racing with the consumer, when_all predecessors racing; at most one non-value predecessor per when_all so that the denotation is order independent), results compared modulo placement after the runtime is idle; non-trivial = at least 3 operators, distinct = distinct (term, consumer). E1: split / ensure_started / split_tuple shared state and when_all counter with 2-5 threads under PRNG schedules; non-trivial = a continuation was stored or the counter was decremented concurrently',
+        'rule': 'E0-static (C03s): a third of the E0 cases are STATICALLY TYPED pipelines of the same term language with the same expected lines: static=1 = an instance of the pure catalogue (145 shapes: leaves; when_all of 1-3 / when_all_vector / split / ensure_started over leaves; each of then/let_value/let_error/continues_on/unpack/drop_value/require_started/drop_operation_state over a leaf, over just, over each storing predecessor and over each other; drop_operation_state over those; mixed storing shapes), one pika expression connected directly to the typed probe and terminal receiver, no erasure; static=2 = any term on the REF tier (sum types of senders to adaptor depth 3, receivers reached through a handle that forwards references, operation states nested in place; deeper sub-terms and st/bulk/when_all-of-4 are erased once = holes); leaves keep values / exception_ptr in their operation state and complete with references to them, let_value bodies read the predecessor values through the reference when started; error channel over-represented below drop_operation_state / let_error / continues_on; split optionally consumed once before the real consumer connects (spre=1); pool terms on the REF tier; all inline static cases again under ASan. E0: random pipeline terms (2-12 nodes over just/err/stop/arg/schedule/transfer_just/then/let_value/let_error/drop_value/unpack/continues_on/bulk(generic)/require_started/drop_operation_state/when_all/when_all_vector/split/ensure_started/split_tuple, all three channels at leaves and inline schedulers, throwing callables, consumers terminal receiver / start_detached / sync_wait); E0-pool: the same terms with schedule/continues_on/transfer_just on pika thread_pool_scheduler of a running 2-worker runtime (completion on worker threads, ensure_started racing with the consumer, when_all predecessors racing; at most one non-value predecessor per when_all so that the denotation is order independent), results compared modulo placement after the runtime is idle; non-trivial = at least 3 operators, distinct = distinct (term, consumer). E1: split / ensure_started / split_tuple shared state and when_all counter with 2-5 threads under PRNG schedules; non-trivial = a continuation was stored or the counter was decremented concurrently; C03x: schedule_from / let_value / let_error over a manual leaf (counted value type) and a manual scheduler / successor sender: start, completion of the predecessor and completion of the scheduler / successor on own threads, shared threads or one thread in any order (inline completions), all channels, throwing user function / throwing store (let kinds), two thirds with a self-deleting guarded operation state; every statement-level event (store, call, connect, start, reset, forward, destruction of the stored value and of the inner operation state) replayed through the Lean acceptors SchedFromLife / LetLife',
         'samples': samples,
         'traces_validated_against_impl': kinds['pass'],
         'disagreements_checked': kinds['tie'],
